@@ -260,6 +260,17 @@ def callScopeB (sched : Sched) (s : MState) : Call → Bool
     scopeB (defPart s p e) p &&
     validSchedule (defPart s p e).idx (chainR p) (sched (findTaskids (defPart s p e).idx (chainR p))) &&
     (setExpr sched s p e).2.isNone
+  | .inplace op p operand =>
+    match inplaceCall s op p operand with
+    | some (.setValue q v) =>
+      scopeB (preState s q) q &&
+      validSchedule (preState s q).idx (chainR q) (sched (findTaskids (preState s q).idx (chainR q))) &&
+      (setValue sched s q v).2.isNone
+    | some (.setExpr q e) =>
+      scopeB (defPart s q e) q &&
+      validSchedule (defPart s q e).idx (chainR q) (sched (findTaskids (defPart s q e).idx (chainR q))) &&
+      (setExpr sched s q e).2.isNone
+    | _ => false
   | .unregister _ => true
   | .cleanup => true
   | .verify => true
@@ -332,7 +343,54 @@ theorem goodRunB_sound (sched : Sched) : ∀ (cs : List Call) (s : MState), MInv
     | cleanup => exact goodRunB_sound sched cs _ (cleanup_MInv s hi) hrest
     | verify => exact goodRunB_sound sched cs _ (verify_MInv s hi) hrest
     | refresh => exact goodRunB_sound sched cs _ (refresh_MInv s hi) hrest
-    | inplace _ _ _ => simp [callScopeB] at hc
+    | inplace op p operand =>
+      simp only [callScopeB] at hc
+      simp only [GoodRun]
+      cases hcall : inplaceCall s op p operand with
+      | none => simp [hcall] at hc
+      | some c =>
+        have heq := inplace_eq sched s op p operand c hcall
+        have hnext : (apply sched s (.inplace op p operand)).1 = (apply sched s c).1 := by
+          simp only [apply, heq]
+        rw [hnext] at hrest
+        cases c with
+        | setValue q v =>
+          simp only [hcall, Bool.and_eq_true] at hc
+          obtain ⟨⟨hsc, hvs⟩, hok⟩ := hc
+          have hok' := isNone_eq _ hok
+          have hf : lookDef s.defs q ≠ none → s.frozen = false := by
+            intro hne
+            cases hl : lookDef s.defs q with
+            | none => exact absurd hl hne
+            | some t =>
+              cases hfz : s.frozen with
+              | false => rfl
+              | true =>
+                rw [setValue_frozen_defined sched s q v t hfz hl] at hok'
+                cases hok'
+          have hi0 := (preState_facts s q hi hf).1
+          exact ⟨scopeB_sound _ hi0 q hsc, validSchedule_sound _ _ _ hvs (scopeB_acyclic _ q hsc), hok',
+            goodRunB_sound sched cs _ (setValue_MInv sched s q v hi) hrest⟩
+        | setExpr q e =>
+          simp only [hcall, Bool.and_eq_true] at hc
+          obtain ⟨⟨hsc, hvs⟩, hok⟩ := hc
+          have hok' := isNone_eq _ hok
+          have hf : s.frozen = false := by
+            cases hfz : s.frozen with
+            | false => rfl
+            | true =>
+              rw [setExpr_frozen sched s q e hfz] at hok'
+              cases hok'
+          have hi0 := (defPart_facts s q e hi hf).1
+          exact ⟨scopeB_sound _ hi0 q hsc, validSchedule_sound _ _ _ hvs (scopeB_acyclic _ q hsc), hok',
+            goodRunB_sound sched cs _ (setExpr_MInv sched s q e hi) hrest⟩
+        | inplace _ _ _ => simp [hcall] at hc
+        | register _ => simp [hcall] at hc
+        | unregister _ => simp [hcall] at hc
+        | load _ _ => simp [hcall] at hc
+        | refresh => simp [hcall] at hc
+        | cleanup => simp [hcall] at hc
+        | verify => simp [hcall] at hc
     | register _ => simp [callScopeB] at hc
     | load _ _ => simp [callScopeB] at hc
 
